@@ -12,6 +12,7 @@ import Driver.Compress
 import Driver.Hardlink
 import Driver.Verify
 import Driver.Filter
+import Driver.Bisync
 
 namespace Driver
 
@@ -28,6 +29,7 @@ def dispatch (toks : List String) : String :=
       else if area == "hl" then Driver.Hardlink.handle toks
       else if area == "verify" then Driver.Verify.handle toks
       else if area == "glob" || area == "filter" then Driver.Filter.handle toks
+      else if area == "bisync" then Driver.Bisync.handle toks
       else none
     r.getD "bad-op"
 
